@@ -17,7 +17,7 @@ SIGMA_STD = 0.0025  # narrow probe kernel: (smallest pixel)/40
 RULE = (
     "BFS over configuration histories of REAL PersistenceImager objects: initial states = all "
     "constructor products birth_range x pers_range x pixel_size (5x5x6) + defaults; operations = "
-    "birth_range=r (5), pers_range=r (5), pixel_size=s (6), fit(D) for 3 data sets x skew on/off (6); "
+    "birth_range=r (5), pers_range=r (5), pixel_size=s (6), fit(D) for 3 data sets x skew on/off (6), fit_transform(D) for 2 data sets x skew on/off (4); "
     "depth 2 (quick) / 4 (thorough); states de-duplicated on the public geometry "
     "(ranges, width, height, resolution, pixel_size) with differential continuation of merged states. "
     "Every state: resolution*pixel = width/height = range extents, transform shape = resolution, "
@@ -45,7 +45,8 @@ def inits():
 
 
 OPS = ([["birth_range", list(r)] for r in RANGES] + [["pers_range", list(r)] for r in RANGES]
-       + [["pixel_size", s] for s in PIXELS] + [["fit", k, sk] for k in DATA for sk in (True, False)])
+       + [["pixel_size", s] for s in PIXELS] + [["fit", k, sk] for k in DATA for sk in (True, False)]
+       + [["fit_transform", k, sk] for k in ("a", "c") for sk in (True, False)])
 
 
 def unit_weight(b, p):
@@ -174,11 +175,19 @@ def apply_op(ctx, im, op, where):
         for ax in ("birth_range", "pers_range"):
             covers(ctx, "pixel-size-" + ax, "the %s covered before the pixel-size change" % ax, before[ax][0], before[ax][1],
                    g[ax][0], g[ax][1], g["pixel_size"], where, {"before": before, "after": g})
-    elif op[0] == "fit":
+    elif op[0] in ("fit", "fit_transform"):
         dg = [np.array(d, dtype=float) for d in DATA[op[1]]]
         arg = dg[0] if len(dg) == 1 else dg
         ctx.trans()
-        im.fit(arg, skew=op[2])
+        if op[0] == "fit":
+            im.fit(arg, skew=op[2])
+        else:
+            out = im.fit_transform(arg, skew=op[2])
+            ctx.valid()
+            shapes = [np.asarray(o).shape for o in (out if isinstance(out, list) else [out])]
+            if any(sh != tuple(im.resolution) for sh in shapes):
+                ctx.violation("image-shape", "fit_transform output shape differs from the reported resolution [%s]" % where,
+                              observed=[list(sh) for sh in shapes], expected=list(im.resolution))
         g = geom(im)
         pts = skewed(DATA[op[1]], op[2])
         covers(ctx, "fit-birth", "the birth extent of the fitted points", pts[:, 0].min(), pts[:, 0].max(),
@@ -239,9 +248,9 @@ def run_history(case, ctx):
 
 
 def silent_apply(im, op):
-    if op[0] == "fit":
+    if op[0] in ("fit", "fit_transform"):
         dg = [np.array(d, dtype=float) for d in DATA[op[1]]]
-        im.fit(dg[0] if len(dg) == 1 else dg, skew=op[2])
+        getattr(im, op[0])(dg[0] if len(dg) == 1 else dg, skew=op[2])
     else:
         setattr(im, op[0], tuple(op[1]) if isinstance(op[1], list) else op[1])
 
